@@ -284,6 +284,50 @@ def _only_compared(prog, mod: Module, stmt: ast.stmt) -> Optional[str]:
     return f'reference value: the package only compares with it ({n_uses} comparisons), never calls, stores into or hands it on' if n_uses else None
 
 
+def _never_mutated_object(ctx, mod: Module, stmt: ast.stmt) -> Optional[str]:
+    """A module-level object built by a constructor / creation function of the package (a name, a type description) that no
+    mutation site anywhere in the package is rooted in (ownership analysis E3c over all functions: writes, in-place operators,
+    mutating methods, also through parameters it is handed to) and that is never rebound: a constant in effect."""
+    prog = ctx.prog
+    targets = stmt.targets if isinstance(stmt, ast.Assign) else [stmt.target]
+    if len(targets) != 1 or not isinstance(targets[0], ast.Name) or not isinstance(stmt.value, ast.Call):
+        return None
+    name = targets[0].id
+    sym = prog.resolve_expr_symbol(mod, stmt.value.func) if isinstance(stmt.value.func, (ast.Name, ast.Attribute)) else None
+    if isinstance(sym, FuncInfo):
+        rt = prog.ann_to_type(sym.module, sym.node.returns, sym.cls) if sym.node.returns is not None else ('any',)
+        cls = prog.classes.get(rt[1]) if rt[0] == 'cls' else None
+    else:
+        cls = sym if isinstance(sym, ClassInfo) else None
+    if cls is None or not cls.is_dataclass:
+        return None
+    if not all(is_immutable_value(prog, mod, a) for a in stmt.value.args) or \
+            not all(is_immutable_value(prog, mod, k.value) for k in stmt.value.keywords):
+        return None
+    # never rebound
+    for m in prog.modules.values():
+        for n in ast.walk(m.tree):
+            if isinstance(n, ast.Name) and n.id == name and isinstance(n.ctx, (ast.Store, ast.Del)) and n is not targets[0] and \
+                    (m is mod or name in m.imports):
+                return None
+            if isinstance(n, ast.Global) and name in n.names:
+                return None
+    mut = ctx.__dict__.get('_mut_all')
+    if mut is None:
+        from ..mutation import Mutations
+        mut = Mutations(prog, ctx.cg)
+        mut.solve()
+        ctx.__dict__['_mut_all'] = mut
+    key = f'{mod.name}.{name}'
+    for fq, evs in mut.events.items():
+        for ev in evs:
+            for r in ev.roots:
+                if r[0] == 'global' and r[1] == key:
+                    return None         # (a receiver reached THROUGH a fresh object that holds it is rooted in it as well)
+    return (f'an object of {cls.name} built once from constants that nothing in the package mutates or rebinds (ownership analysis: no '
+            f'mutation site is rooted in it)')
+
+
 def module_state_instances(ctx) -> List[tuple]:
     """Instances for the 'no module-level / class-level mutable state' rule.
     Returns tuples (module, function, construct, ok, message, node)."""
@@ -298,7 +342,7 @@ def module_state_instances(ctx) -> List[tuple]:
                 ok = is_immutable_value(prog, mod, val)
                 why = 'module-level binding of an immutable value'
                 if not ok:
-                    table = readonly_table(prog, mod, stmt) or _only_compared(prog, mod, stmt)
+                    table = readonly_table(prog, mod, stmt) or _only_compared(prog, mod, stmt) or _never_mutated_object(ctx, mod, stmt)
                     if table:
                         ok, why = True, table
                 out.append((mod.name, '<module>', stmt, ok,
